@@ -283,3 +283,27 @@ PROPS["C16"] = dict(
     assumptions=["the Go memory model, scheduler and channel implementation are not modelled: a data race can only be exhibited by the race detector (failing-schedule search), not excluded by it",
                  "diff and merge pipelines are exercised concurrently by C04/C05's runs but their goroutine structure is not modelled here"],
 )
+
+_SYNC_RULE = ("pairs of (local CLI repository on badger+SQLite, remote repository behind an in-process reference HTTP server assembled from the repository's own finder/sender/receiver) "
+              "grown from a common history of 1..3 commits and then made remote-ahead / local-ahead / diverged / equal / unrelated, with a tag that may move; one of `wrgl fetch` (forced or "
+              "plain refspec, with/without tags, depth 0..2), `wrgl push`, `wrgl pull`, `wrgl merge` (ff / no-ff / ff-only), with and without --force; max packfile size 1 / 700 / 5000 / default; "
+              "the server refuses or accepts non-fast-forwards; refs, latest reflog entries, commits and usable tables of both sides observed before and after, and after an immediate repeat; "
+              "non-trivial = remote-ahead, diverged or unrelated; distinct = distinct (op, input)")
+
+PROPS["C09"] = dict(
+    lean_modules=["WrglModel.Props.C09"],
+    quick_n=64, thorough_n=800, rule=_SYNC_RULE,
+    modelled="the closure a successful fetch / push must establish, composed from the C08 finder and C07 transfer models; upload_pack_session.go / receive_pack_session.go are exercised end to end, not modelled message by message",
+    assumptions=["the reference server (harness/refserver.go) is harness code in the trusted base", "HTTP, gzip, cookies and retries are not modelled"],
+)
+PROPS["C10"] = dict(
+    registered=True,
+    level_text="Kernel-checked for the ref-update decision chains of fetch (saveFetchedRefs), push (identifyUpdates) and merge (runMerge) as hand-written models: without force a branch ref only ever moves to a descendant of its old value (ancestry = the proved-sound Reach of C11's graph model), a tag never moves, "
+               "fast-forward merge moves the head exactly to the other commit and only when the head is the merge base, --ff-only rejects every other case, identical commits change nothing, and refs not named by the operation are untouched (frame). "
+               "The models are tied to the code by running the real CLI (`wrgl fetch/push/pull/merge`) against a reference server on generated repository pairs and having the Lean driver evaluate the same decision functions on the observed before/after refs.",
+    level_note=LEVEL_NOTE + "PARTIAL: the tie is differential (no translator for the if-chains); the server-side half of a push (receive-pack's own non-fast-forward refusal) is the harness's reference server, so only the client's refusal is checked; reflog content is compared, its SQL storage is not modelled.",
+    lean_modules=["WrglModel.Props.C10"],
+    quick_n=64, thorough_n=800, rule=_SYNC_RULE,
+    modelled="cmd/wrgl/fetch/root.go saveFetchedRefs, cmd/wrgl/push_cmd.go identifyUpdates, cmd/wrgl/merge_cmd.go runMerge (the if-chains, as fetchDecision / pushDecision / mergeDecision)",
+    assumptions=["server-side ref update on push is reference-server code", "`wrgl pull` uses the remote's configured (forced) refspec for remote-tracking refs"],
+)
